@@ -58,6 +58,7 @@ structure St where
   heap  : LinkedList.Heap
   linit : List Bool                            -- NLL lists initialised?
   wher  : List (Option Nat)                    -- NNODES: which list the node is in (ghost)
+  leaked : Nat := 0                            -- blocks the array-list code dropped without releasing (allocator balance)
 
 def St.init : St :=
   { als := List.replicate NLISTS none, heap := LinkedList.emptyHeap,
@@ -106,6 +107,9 @@ def mut1 (s : St) (k : Nat) (r : ArrayList.AL × ArrayList.Rc) : St × List Stri
 
 def alStep (s : St) (t : List String) : St × List String :=
   match t with
+  | ["balance"] =>
+    -- every list is cleaned up; what is still live was dropped by the library without a release
+    ({ s with als := List.replicate NLISTS none, leaked := 0 }, [s!"P live={s.leaked}"])
   | ["init_dyn", ls, n, isz] =>
     match parseL? ls, parseSize? n, parseSize? isz with
     | some k, some n, some isz =>
@@ -177,7 +181,8 @@ def alStep (s : St) (t : List String) : St × List String :=
           | some i => mut1 s k (ArrayList.erase l i)
           | none => (s, ["bad-op"])
         | "clear", [] => mut1 s k (ArrayList.clear l, .ok)
-        | "shrink", [] => mut1 s k (ArrayList.shrinkToFit l)
+        | "shrink", [] =>
+          mut1 { s with leaked := s.leaked + (if ArrayList.shrinkLeaks l then 1 else 0) } k (ArrayList.shrinkToFit l)
         | "sort", [] => mut1 s k (ArrayList.sort l, .ok)
         | "swap", [a, b] =>
           match parseSize? a, parseSize? b with
